@@ -14,10 +14,25 @@ type Outcome struct {
 	Cancel  bool   `json:"cancel,omitempty"` // call cancel() from inside the callback
 	Boost   bool   `json:"boost,omitempty"`  // give the calling task strict priority from here on (C09 "failure handled first")
 	Action  string `json:"action,omitempty"` // post only
+	// Both: a failing exec / fallback returns a value together with its error
+	// (the error decides: the value must be ignored).
+	Both bool `json:"both,omitempty"`
+	// Conn: the callback itself calls Connect on a flow while it runs.
+	Conn *DynConn `json:"conn,omitempty"`
+}
+
+// DynConn is a Connect call made from inside a callback.
+type DynConn struct {
+	Flow   int    `json:"flow"`
+	From   int    `json:"from"`
+	Action string `json:"action"`
+	To     int    `json:"to"`
 }
 
 // Item scripts one batch item.
 type Item struct {
+	// Pay "erritem": prep hands this item over as an error Result
+	// (NewErrorResult); it is still an item and must be processed like any other.
 	Pay  string    `json:"pay,omitempty"`
 	Exec []Outcome `json:"exec,omitempty"` // per attempt; the last entry repeats
 	Fb   *Outcome  `json:"fb,omitempty"`   // fallback outcome when invoked (node must have a fallback)
